@@ -637,6 +637,36 @@ func init() {
 			e.needCivil(t, "In")
 			return e.timeToUTC(st, t)
 		}
+		if l.Kind == 2 && !t.UTC.IsTrue() && !t.UTC.IsFalse() && e.opt.Zone == 1 && t.Inst == nil {
+			// a time that is in UTC on some paths (the zero value) and local on the others: convert the UTC case
+			asUTC, asLocal := t, t
+			asUTC.UTC, asLocal.UTC = e.tc.True, e.tc.False
+			d := e.tc.BVMul(e.zone.offsetBV(st), e.bv64(1000000000))
+			s2 := st.fork() // (range assumptions of the conversion must not leak into the local case)
+			conv := e.civilAddQuiet(s2, asUTC, d)
+			if conv != nil {
+				conv.UTC = e.tc.False
+				if m, ok := e.mergeVal(t.UTC, *conv, asLocal); ok {
+					return m
+				}
+			}
+			panic(unsupported("Time.In(Local) of a time whose location is symbolic"))
+		}
+		if l.Kind == 2 && t.UTC.IsTrue() && e.opt.Zone != 2 {
+			// UTC -> process zone: the same wall clock (UTC process zone) or civil + offset (fixed offset)
+			e.needCivil(t, "In")
+			if e.opt.Zone == 0 {
+				t.UTC = e.tc.False
+				return t
+			}
+			if t.Y.IsConst() && t.Y.SVal() <= 1 {
+				panic(unsupported("Time.In(Local) of the zero time (the year before 1 is outside the time model)"))
+			}
+			d := e.tc.BVMul(e.zone.offsetBV(st), e.bv64(1000000000))
+			out := e.civilAdd(st, t, d).(TimeV)
+			out.UTC = e.tc.False
+			return out
+		}
 		panic(unsupported("Time.In(Local) of a UTC time"))
 	})
 	stubs["(time.Time).UTC"] = stubTimeMethod(func(e *Engine, st *State, t TimeV, args []Value, pos token.Pos) Value {
@@ -938,6 +968,18 @@ func (e *Engine) timeToUTC(st *State, t TimeV) TimeV {
 		return t
 	}
 	if !t.UTC.IsFalse() {
+		if e.opt.Zone == 1 && t.Inst == nil {
+			// UTC on some paths (the zero value), local on the others: convert the local case only
+			asUTC, asLocal := t, t
+			asUTC.UTC, asLocal.UTC = c.True, c.False
+			d := c.BVMul(c.BVNeg(e.zone.offsetBV(st)), e.bv64(1000000000))
+			if conv := e.civilAddQuiet(st.fork(), asLocal, d); conv != nil {
+				conv.UTC = c.True
+				if m, ok := e.mergeVal(t.UTC, asUTC, *conv); ok {
+					return m.(TimeV)
+				}
+			}
+		}
 		panic(unsupported("UTC() of a time whose location is symbolic"))
 	}
 	if e.opt.Zone == 0 {
@@ -958,6 +1000,21 @@ func (e *Engine) timeToUTC(st *State, t TimeV) TimeV {
 	out := e.civilAdd(st, t, d).(TimeV)
 	out.UTC = c.True
 	return out
+}
+
+// civilAddQuiet: civilAdd that reports failure instead of raising unsupported.
+func (e *Engine) civilAddQuiet(st *State, t TimeV, d *Term) (out *TimeV) {
+	defer func() {
+		if r := recover(); r != nil {
+			if _, ok := r.(unsupportedErr); ok {
+				out = nil
+				return
+			}
+			panic(r)
+		}
+	}()
+	v := e.civilAdd(st, t, d).(TimeV)
+	return &v
 }
 
 // civilAdd: t.Add(d) for a civil time: whole seconds, |d| < 2 days (anything else is UNSUPPORTED).
